@@ -331,10 +331,15 @@ impl Pool {
         let results: Arc<Mutex<Vec<Option<Outcome>>>> = Arc::new(Mutex::new(vec![None; n]));
         let next = Arc::new(std::sync::atomic::AtomicUsize::new(0));
         let threads = self.size.min(n.max(1));
+        // a hang is confirmed by re-running the job alone with a 60 s limit; after three confirmed
+        // hangs in one batch further time-outs are taken at face value (a tree that hangs on many
+        // inputs must not make the check itself run for hours)
+        let confirmed_hangs = Arc::new(std::sync::atomic::AtomicUsize::new(0));
         std::thread::scope(|s| {
             for _ in 0..threads {
                 let results = results.clone();
                 let next = next.clone();
+                let confirmed_hangs = confirmed_hangs.clone();
                 s.spawn(move || {
                     let mut w: Option<Worker> = None;
                     loop {
@@ -343,12 +348,15 @@ impl Pool {
                             break;
                         }
                         let mut out = run_one(&mut w, &jobs[i], self.timeout, self.recycle_every);
-                        if out == Outcome::Hang {
+                        if out == Outcome::Hang && confirmed_hangs.load(std::sync::atomic::Ordering::SeqCst) < 3 {
                             // a hang only counts when it repeats alone with a 60 s limit
                             let mut w2: Option<Worker> = None;
                             out = run_one(&mut w2, &jobs[i], Duration::from_secs(60), 1);
                             if let Some(mut w2) = w2 {
                                 w2.kill();
+                            }
+                            if out == Outcome::Hang {
+                                confirmed_hangs.fetch_add(1, std::sync::atomic::Ordering::SeqCst);
                             }
                         }
                         results.lock().unwrap()[i] = Some(out);
